@@ -133,9 +133,10 @@ Parse(t) ==
     IF Len(t) >= 64 THEN [kind |-> "malformed", v |-> none]
     ELSE LET st == Strict(t) IN
          IF st # none THEN [kind |-> "ok", v |-> st]
-         ELSE LET le == Lenient(t) IN
-              IF le # none THEN [kind |-> "unspecified", v |-> le]
-              ELSE [kind |-> "malformed", v |-> none]
+         \* everything outside the grammar is malformed and must be refused ("malformed version strings
+         \* are refused"): empty components, a fourth component, blanks, signs.  (The pinned code read such
+         \* strings leniently through strtok_r / strtol; Lenient(t) is kept for the record and the lemma.)
+         ELSE [kind |-> "malformed", v |-> none]
 
 (* What a parser may do with t: "ok" = must return Parse(t).v, "malformed" = must
    refuse, "unspecified" = may refuse; if it accepts, it returns Parse(t).v
@@ -231,7 +232,20 @@ ImplLoop(buf, i, save, acc) ==
               ELSE IF n.val < 0 THEN Fail                             \* invalid negative
               ELSE ImplLoop(buf, i + 1, tk.save, Append(acc, n.val))
 
-ParseImpl(t) == IF Len(t) >= 64 THEN Fail ELSE ImplLoop(t, 1, 1, <<>>)
+\* the strict scanner ("fix: version: refuse malformed version strings"): digits, ".", digits, ".", digits,
+\* then the end of the string or a "-" suffix
+RECURSIVE StrictLoop(_, _, _, _)
+StrictLoop(buf, i, p, acc) ==
+    IF i > 3 THEN IF p > Len(buf) \/ buf[p] = "-" THEN [ok |-> TRUE, v |-> acc] ELSE Fail
+    ELSE IF p > Len(buf) \/ buf[p] \notin Digit THEN Fail
+    ELSE LET r == ScanDigits(buf, p, 0) IN
+         IF i = 3 THEN StrictLoop(buf, 4, r[1], Append(acc, r[2]))
+         ELSE IF r[1] > Len(buf) \/ buf[r[1]] # "." THEN Fail
+         ELSE StrictLoop(buf, i + 1, r[1] + 1, Append(acc, r[2]))
+
+ParseImpl(t) == IF Len(t) >= 64 THEN Fail
+                ELSE IF Variant \in {"lenient_parser", "parse_prefix"} THEN ImplLoop(t, 1, 1, <<>>)   \* pinned code
+                ELSE StrictLoop(t, 1, 1, <<>>)
 
 (* version_is_compatible() / the two tests of ovni_version_check_str() *)
 MinorTooNew(want, have) ==
